@@ -171,6 +171,8 @@ LayerBoundaries(L, inner) ==
            LET p == inner - MbHeader IN
            Around(p) \cup Around(MulCap(p, 2)) \cup Around(MulCap(p, 65535)) \cup Around(MulCap(p, 65536)) \cup Around(L.cfg)
       [] L.k \in MuxKinds -> Around(inner - MuxHeader(L)) \cup {inner - SVL(inner), inner - SVL(inner) + 1, inner}
+                             \* the MTUs of the sibling channels of the same mux (per-mux state shared between channels)
+                             \cup UNION {Around(inner - L.sibs[i]) : i \in 1..Len(L.sibs)}
       [] L.k = "p2pke" -> Around(inner - KeOverhead) \cup Around(KeMaxMsg) \cup {inner}
 \* fixed bytes the layers above position i add in front of a payload (mux headers, p2pke overhead);
 \* fragmenting layers re-chunk, their boundaries are left untranslated
@@ -204,9 +206,21 @@ CfgOf(tag, k, inner) ==
     LET u == IF k = "frag" THEN inner - FragOverhead ELSE inner - MbHeader
         parts == IF k = "frag" THEN FragMaxParts ELSE MbMaxParts
     IN IF tag = "small" THEN Min(MulCap(u, 3) + 7, Big) ELSE Min(MulCap(u, parts) + 1000, HugeCfg)
-Concrete(T, inner) == IF T.k \in {"frag", "mbapp"} THEN [k |-> T.k, cfg |-> CfgOf(T.tag, T.k, inner), c |-> <<>>, h |-> 0]
-                      ELSE IF T.k = "p2pke" THEN [k |-> T.k, cfg |-> 0, c |-> <<>>, h |-> 0]
-                      ELSE [k |-> T.k, cfg |-> 0, c |-> T.c, h |-> MuxHeaderOf(T.k, T.c)]
+\* A mux layer may open SEVERAL channels on the same mux instance (template fields chans, own, ord, use):
+\* chans = the channel ids, own = index of the channel the stack continues on, ord = the order in which the
+\* channels are used for the first time (a permutation of the indices), use = what that first use is
+\* ("mtu" MTU(), "tell", "ask").  The law of the layer: MTU(channel) = MTU(inner) - headerLen(channel),
+\* whatever the other channels of the mux did before -- so sibs (header lengths of all channels) only feeds
+\* the boundary sizes, not LayerMtu.
+NoSib == [chans |-> <<>>, own |-> 0, ord |-> <<>>, use |-> "mtu", sibs |-> <<>>]
+Concrete(T, inner) ==
+    IF T.k \in {"frag", "mbapp"} THEN [k |-> T.k, cfg |-> CfgOf(T.tag, T.k, inner), c |-> <<>>, h |-> 0] @@ NoSib
+    ELSE IF T.k = "p2pke" THEN [k |-> T.k, cfg |-> 0, c |-> <<>>, h |-> 0] @@ NoSib
+    ELSE IF "chans" \in DOMAIN T
+         THEN [k |-> T.k, cfg |-> 0, c |-> T.chans[T.own], h |-> MuxHeaderOf(T.k, T.chans[T.own]),
+               chans |-> T.chans, own |-> T.own, ord |-> T.ord, use |-> T.use,
+               sibs |-> [i \in 1..Len(T.chans) |-> MuxHeaderOf(T.k, T.chans[i])]]
+         ELSE [k |-> T.k, cfg |-> 0, c |-> T.c, h |-> MuxHeaderOf(T.k, T.c)] @@ NoSib
 
 VARIABLES base, innerMtu, layers
 svars == <<base, innerMtu, layers>>
